@@ -33,7 +33,12 @@ Inductive lstmt : Type :=
 | LBreak | LContinue
 | LBlock (body : list lstmt)
 | LEval (e : lir)
-| LPrint (e : lir).
+| LPrint (e : lir)
+| LFor (t : ty) (x : ident) (from to : lir) (step : option lir) (body : list lstmt)
+| LForEach (x : ident) (idx : option ident) (src : lsrc) (body : list lstmt)
+with lsrc : Type :=
+| LSList (es : list lir)        (* a list literal: the elements are evaluated into the copied container *)
+| LSText (cs : list Z).         (* a Text literal: its Buchstaben *)
 
 Fixpoint compile_stmt (st : stmt) : lstmt :=
   match st with
@@ -48,6 +53,11 @@ Fixpoint compile_stmt (st : stmt) : lstmt :=
   | SBlock b => LBlock (map compile_stmt b)
   | SExpr e => LEval (compile_expr e)
   | SPrint e => LPrint (compile_expr e)
+  | SFor t x from to step b =>
+      LFor t x (compile_expr from) (compile_expr to) (match step with Some se => Some (compile_expr se) | None => None end)
+           (map compile_stmt b)
+  | SForEach _ x idx (EListLit es) b => LForEach x idx (LSList (map compile_expr es)) (map compile_stmt b)
+  | SForEach _ x idx (EText cs) b => LForEach x idx (LSText cs) (map compile_stmt b)
   | _ => LBlock []            (* outside the fragment *)
   end.
 
@@ -86,6 +96,27 @@ Fixpoint stmt_ok (G : tenv) (lp : bool) (st : stmt) : option tenv :=
   | SBlock b => if block_ok G lp b then Some G else None
   | SExpr e => match typeof G e with Some _ => Some G | None => None end
   | SPrint e => match typeof G e with Some _ => Some G | None => None end
+  | SFor t x from to step b =>
+      let G1 := upd G x t in
+      match typeof G from, typeof G1 to with
+      | Some tf, Some tq =>
+          if is_num t && assignable t tf && is_num tq &&
+             (match step with None => true | Some se => match typeof G1 se with Some ts => is_num ts | None => false end end) &&
+             block_ok G1 true b
+          then Some G else None
+      | _, _ => None
+      end
+  | SForEach t x idx src b =>
+      let G1 := upd G x t in
+      let G2 := match idx with Some ix => upd G1 ix TZahl | None => G1 end in
+      if is_scalar_ty t &&
+         (match src with
+          | EListLit (e0 :: es) => forallb (fun e => match typeof G e with Some te => ty_eqb te t | None => false end) (e0 :: es)
+          | EText cs => ty_eqb t TChar && forallb (fun c => (- 2^31 <=? c) && (c <? 2^31)) cs
+          | _ => false
+          end) &&
+         block_ok G2 true b
+      then Some G else None
   | _ => None
   end.
 
@@ -131,6 +162,27 @@ Definition m_print (m : mval) : option (list Z) :=
   match print_bytes fmt_float (value_of_mval m) with inl (Some bs) => Some bs | _ => None end.
 
 Definition m_emit (ms : mstate) (bs : list Z) : mstate := {| cells := cells ms; mout := rev_append bs (mout ms) |}.
+
+Definition mr_env (en : env) (r : mr mflow) : mr (mflow * env) :=
+  match r with
+  | MROk fl ms' => MROk (fl, en) ms'
+  | MRErr ms' => MRErr ms' | MRStuck => MRStuck | MRFuel => MRFuel
+  end.
+
+Inductive mlres : Type := MLOk (l : list mval) | MLErr | MLStuck.
+Fixpoint m_evals (en : env) (ms : mstate) (es : list lir) : mlres :=
+  match es with
+  | [] => MLOk []
+  | e :: r => match m_eval en ms e with
+              | MOk m => match m_evals en ms r with MLOk l => MLOk (m :: l) | x => x end
+              | MErr => MLErr
+              | MStuck => MLStuck
+              end
+  end.
+
+Definition m_alloc (ms : mstate) (m : mval) : mstate := {| cells := cells ms ++ [m]; mout := mout ms |}.
+Definition m_store (ms : mstate) (a : nat) (m : mval) : mstate := {| cells := set_nth (cells ms) a m; mout := mout ms |}.
+Definition m_default_step (t : ty) : mval := match t with TKomma => MF64 (f_of_Z 1) | _ => MI64 1 end.
 
 Fixpoint mexec (n : nat) (en : env) (ms : mstate) (st : lstmt) {struct n} : mr (mflow * env) :=
   match n with
@@ -225,6 +277,55 @@ Fixpoint mexec (n : nat) (en : env) (ms : mstate) (st : lstmt) {struct n} : mr (
         | MErr => MRErr ms
         | MStuck => MRStuck
         end
+    | LFor t x from to step body =>
+        match m_eval en ms from with
+        | MOk m =>
+            match m_coerce t m with
+            | MOk m0 =>
+                let a := length (cells ms) in
+                let ms1 := m_alloc ms m0 in
+                let en' := (x, BLoc a) :: en in
+                match (match step with Some se => m_eval en' ms1 se | None => MOk (m_default_step t) end) with
+                | MOk sv =>
+                    match t with
+                    | TKomma =>
+                        match m0, as_float sv with
+                        | MF64 i0, LOk (MF64 stpf) => mr_env en (mfor_k n en' ms1 a i0 stpf to body)
+                        | _, _ => MRStuck
+                        end
+                    | TZahl | TByte =>
+                        match as_int m0, as_int sv with
+                        | LOk (MI64 u0), LOk (MI64 su) => mr_env en (mfor_i n en' ms1 t a u0 su to body)
+                        | _, _ => MRStuck
+                        end
+                    | _ => MRStuck
+                    end
+                | MErr => MRErr ms1
+                | MStuck => MRStuck
+                end
+            | MErr => MRErr ms
+            | MStuck => MRStuck
+            end
+        | MErr => MRErr ms
+        | MStuck => MRStuck
+        end
+    | LForEach x idx src body =>
+        match (match src with
+               | LSText cs => MLOk (map (fun c => MI32 (c mod 2^32)) cs)
+               | LSList es => m_evals en ms es
+               end) with
+        | MLOk [] => MROk (MFNext, en) ms
+        | MLOk (m0 :: rest) =>
+            let a := length (cells ms) in
+            let ms1 := m_alloc ms m0 in
+            let en1 := (x, BLoc a) :: en in
+            match idx with
+            | None => mr_env en (meach n en1 ms1 a None (m0 :: rest) body)
+            | Some ix => mr_env en (meach n ((ix, BLoc (S a)) :: en1) (m_alloc ms1 (MI64 1)) a (Some (S a)) (m0 :: rest) body)
+            end
+        | MLErr => MRErr ms
+        | MLStuck => MRStuck
+        end
     end
   end
 
@@ -272,6 +373,80 @@ with mrepeat (n : nat) (en : env) (ms : mstate) (u : Z) (b : list lstmt) {struct
     | MROk _ ms' => mrepeat n en ms' (sub64 u 1) b
     | MRErr ms' => MRErr ms' | MRStuck => MRStuck | MRFuel => MRFuel
     end
+  end
+(* counting loop, Zahl/Byte counter: hidden i64 index u and step su live outside the variable cells; the visible
+   variable (cell a) is re-assigned from the index at every increment (numericCast: trunc for a Byte) *)
+with mfor_i (n : nat) (en : env) (ms : mstate) (t : ty) (a : nat) (u su : Z) (to : lir) (b : list lstmt)
+       {struct n} : mr mflow :=
+  match n with
+  | O => MRFuel
+  | S n =>
+    match m_eval en ms to with
+    | MOk mt =>
+        match as_int mt with
+        | LOk (MI64 lim) =>
+            if (if icmp64 ISlt su 0 then icmp64 ISge u lim else icmp64 ISle u lim) then
+              match mblock n en ms b with
+              | MROk MFBreak ms' => MROk MFNext ms'
+              | MROk _ ms' =>
+                  let u' := add64 u su in
+                  mfor_i n en (m_store ms' a (match t with TByte => MI8 (trunc64_8 u') | _ => MI64 u' end)) t a u' su to b
+              | MRErr ms' => MRErr ms' | MRStuck => MRStuck | MRFuel => MRFuel
+              end
+            else MROk MFNext ms
+        | _ => MRStuck
+        end
+    | MErr => MRErr ms
+    | MStuck => MRStuck
+    end
+  end
+
+(* Kommazahl counter: double index, step and end value cast to double *)
+with mfor_k (n : nat) (en : env) (ms : mstate) (a : nat) (i stpf : Z) (to : lir) (b : list lstmt)
+       {struct n} : mr mflow :=
+  match n with
+  | O => MRFuel
+  | S n =>
+    match m_eval en ms to with
+    | MOk mt =>
+        match as_float mt with
+        | LOk (MF64 lim) =>
+            if (if fcmp FOlt stpf f_pos_zero then fcmp FOge i lim else fcmp FOle i lim) then
+              match mblock n en ms b with
+              | MROk MFBreak ms' => MROk MFNext ms'
+              | MROk _ ms' => let i' := f_add i stpf in mfor_k n en (m_store ms' a (MF64 i')) a i' stpf to b
+              | MRErr ms' => MRErr ms' | MRStuck => MRStuck | MRFuel => MRFuel
+              end
+            else MROk MFNext ms
+        | _ => MRStuck
+        end
+    | MErr => MRErr ms
+    | MStuck => MRStuck
+    end
+  end
+
+(* for-each over the copied container (a list of machine values kept outside the variable cells) *)
+with meach (n : nat) (en : env) (ms : mstate) (a : nat) (ai : option nat) (elems : list mval) (b : list lstmt)
+       {struct n} : mr mflow :=
+  match n with
+  | O => MRFuel
+  | S n =>
+    match elems with
+    | [] => MROk MFNext ms
+    | m :: rest =>
+        match mblock n en (m_store ms a m) b with
+        | MROk MFBreak ms' => MROk MFNext ms'
+        | MROk _ ms' =>
+            match ai with
+            | None => meach n en ms' a ai rest b
+            | Some c => match nth_error (cells ms') c with
+                        | Some (MI64 u) => meach n en (m_store ms' c (MI64 (add64 u 1))) a ai rest b
+                        | _ => MRStuck
+                        end
+            end
+        | MRErr ms' => MRErr ms' | MRStuck => MRStuck | MRFuel => MRFuel
+        end
+    end
   end.
 
 (* ================================================================================================ *)
@@ -282,6 +457,9 @@ Notation exec := (RefSem.exec pow log10 fmt_float ftab).
 Notation exec_block := (RefSem.exec_block pow log10 fmt_float ftab).
 Notation loop_while := (RefSem.loop_while pow log10 fmt_float ftab).
 Notation loop_repeat := (RefSem.loop_repeat pow log10 fmt_float ftab).
+Notation loop_for_i := (RefSem.loop_for_i pow log10 fmt_float ftab).
+Notation loop_for_k := (RefSem.loop_for_k pow log10 fmt_float ftab).
+Notation loop_each := (RefSem.loop_each pow log10 fmt_float ftab).
 Notation eval := (RefSem.eval pow log10 fmt_float ftab).
 
 (* ---- unfolding equations (the interpreters are mutual fixpoints; these keep them folded) ---------------- *)
@@ -363,6 +541,125 @@ Lemma loop_repeat_eq : forall n genv en s k b,
     match fl with FBreak => Ok FNext s | FRet v => Ok (FRet v) s | _ => loop_repeat n genv en s (k - 1) b end).
 Proof. reflexivity. Qed.
 
+(* the Zahl a numeric value denotes where a counting loop needs one (step, end value): Kommazahl saturating *)
+Definition to_Z_res (v : value) (s : state) : res Z :=
+  match v with
+  | VK _ => rbind (lift (cast_to fmt_float TZahl v) s) (fun z s => match z with VZ k => Ok k s | _ => bad s end)
+  | _ => match to_i v with Some k => Ok k s | None => bad s end
+  end.
+
+Lemma exec_for : forall n genv en s t x from to step b,
+  exec (S n) genv en s (SFor t x from to step b) =
+  rbind (eval n genv en s from) (fun v0 s => rbind (lift (coerce fmt_float t v0) s) (fun v0 s =>
+    let (a, s) := alloc s v0 in
+    let en' := (x, BLoc a) :: en in
+    rbind (match step with Some se => eval n genv en' s se | None => Ok (default_step t) s end) (fun sv s =>
+      match t with
+      | TKomma =>
+          match v0, to_f sv with
+          | VK i0, Some stp => rbind (loop_for_k n genv en' s a i0 stp to b) (fun fl s => Ok (fl, en) s)
+          | _, _ => bad s
+          end
+      | TZahl | TByte =>
+          match to_i v0 with
+          | None => bad s
+          | Some i0 => rbind (to_Z_res sv s) (fun stp s =>
+                         rbind (loop_for_i n genv en' s t a i0 stp to b) (fun fl s => Ok (fl, en) s))
+          end
+      | _ => bad s
+      end))).
+Proof. reflexivity. Qed.
+
+Lemma loop_for_i_eq : forall n genv en s t a i stp to b,
+  loop_for_i (S n) genv en s t a i stp to b =
+  rbind (eval n genv en s to) (fun tv s => rbind (to_Z_res tv s) (fun lim s =>
+    if (if stp <? 0 then i >=? lim else i <=? lim) then
+      rbind (exec_block n genv en s b) (fun fl s =>
+        match fl with
+        | FBreak => Ok FNext s
+        | FRet v => Ok (FRet v) s
+        | _ => let i' := wrap64 (i + stp) in
+               rbind (write_bind s (BLoc a) (match t with TByte => VB (wrap8 i') | _ => VZ i' end)) (fun _ s =>
+                 loop_for_i n genv en s t a i' stp to b)
+        end)
+    else Ok FNext s)).
+Proof. reflexivity. Qed.
+
+Lemma loop_for_k_eq : forall n genv en s a i stp to b,
+  loop_for_k (S n) genv en s a i stp to b =
+  rbind (eval n genv en s to) (fun tv s =>
+    match to_f tv with
+    | None => bad s
+    | Some lim =>
+        if (if f_lt stp f_pos_zero then f_ge i lim else f_le i lim) then
+          rbind (exec_block n genv en s b) (fun fl s =>
+            match fl with
+            | FBreak => Ok FNext s
+            | FRet v => Ok (FRet v) s
+            | _ => let i' := f_add i stp in
+                   rbind (write_bind s (BLoc a) (VK i')) (fun _ s => loop_for_k n genv en s a i' stp to b)
+            end)
+        else Ok FNext s
+    end).
+Proof. reflexivity. Qed.
+
+Lemma exec_foreach : forall n genv en s t x idx e b,
+  exec (S n) genv en s (SForEach t x idx e b) =
+  rbind (eval n genv en s e) (fun cv s =>
+  rbind (match cv with
+         | VT cs => if ty_eqb t TChar then Ok (map VC cs) s else bad s
+         | VL u vs => if ty_eqb t u then Ok vs s else bad s
+         | _ => bad s
+         end) (fun elems s =>
+    match elems with
+    | [] => Ok (FNext, en) s
+    | v0 :: _ =>
+        let (a, s) := alloc s v0 in
+        let en1 := (x, BLoc a) :: en in
+        match idx with
+        | None => rbind (loop_each n genv en1 s a None elems b) (fun fl s => Ok (fl, en) s)
+        | Some ix =>
+            let (ai, s) := alloc s (VZ 1) in
+            rbind (loop_each n genv ((ix, BLoc ai) :: en1) s a (Some ai) elems b) (fun fl s => Ok (fl, en) s)
+        end
+    end)).
+Proof. reflexivity. Qed.
+
+Lemma loop_each_nil : forall n genv en s a ai b, loop_each (S n) genv en s a ai [] b = Ok FNext s.
+Proof. reflexivity. Qed.
+Lemma loop_each_cons : forall n genv en s a ai v rest b,
+  loop_each (S n) genv en s a ai (v :: rest) b =
+  rbind (write_bind s (BLoc a) v) (fun _ s =>
+  rbind (exec_block n genv en s b) (fun fl s =>
+    match fl with
+    | FBreak => Ok FNext s
+    | FRet r => Ok (FRet r) s
+    | _ =>
+        rbind (match ai with
+               | None => Ok tt s
+               | Some c => rbind (read_bind s (BLoc c)) (fun iv s =>
+                             match iv with VZ k => write_bind s (BLoc c) (VZ (wrap64 (k + 1))) | _ => bad s end)
+               end) (fun _ s => loop_each n genv en s a ai rest b)
+    end)).
+Proof. reflexivity. Qed.
+
+Lemma evals_nil : forall n genv en s, evals pow log10 fmt_float ftab (S n) genv en s [] = Ok [] s.
+Proof. reflexivity. Qed.
+Lemma evals_cons : forall n genv en s e es,
+  evals pow log10 fmt_float ftab (S n) genv en s (e :: es) =
+  rbind (eval n genv en s e) (fun v s => rbind (evals pow log10 fmt_float ftab n genv en s es) (fun vs s => Ok (v :: vs) s)).
+Proof. reflexivity. Qed.
+Lemma eval_listlit : forall n genv en s es,
+  eval (S n) genv en s (EListLit es) =
+  rbind (evals pow log10 fmt_float ftab n genv en s es) (fun vs s =>
+    match vs with
+    | [] => bad s
+    | v :: _ => if forallb (fun w => ty_eqb (type_of v) (type_of w)) vs then Ok (VL (type_of v) vs) s else bad s
+    end).
+Proof. reflexivity. Qed.
+Lemma eval_text : forall n genv en s cs, eval (S n) genv en s (EText cs) = Ok (VT cs) s.
+Proof. reflexivity. Qed.
+
 Lemma mblock_nil : forall n en ms, mblock (S n) en ms [] = MROk MFNext ms.
 Proof. reflexivity. Qed.
 Lemma mblock_cons : forall n en ms st r,
@@ -396,6 +693,63 @@ Lemma mrepeat_eq : forall n en ms u b,
   | MROk _ ms' => mrepeat n en ms' (sub64 u 1) b
   | MRErr ms' => MRErr ms' | MRStuck => MRStuck | MRFuel => MRFuel
   end.
+Proof. reflexivity. Qed.
+Lemma mfor_i_eq : forall n en ms t a u su to b,
+  mfor_i (S n) en ms t a u su to b =
+    match m_eval en ms to with
+    | MOk mt =>
+        match as_int mt with
+        | LOk (MI64 lim) =>
+            if (if icmp64 ISlt su 0 then icmp64 ISge u lim else icmp64 ISle u lim) then
+              match mblock n en ms b with
+              | MROk MFBreak ms' => MROk MFNext ms'
+              | MROk _ ms' =>
+                  let u' := add64 u su in
+                  mfor_i n en (m_store ms' a (match t with TByte => MI8 (trunc64_8 u') | _ => MI64 u' end)) t a u' su to b
+              | MRErr ms' => MRErr ms' | MRStuck => MRStuck | MRFuel => MRFuel
+              end
+            else MROk MFNext ms
+        | _ => MRStuck
+        end
+    | MErr => MRErr ms
+    | MStuck => MRStuck
+    end.
+Proof. reflexivity. Qed.
+Lemma mfor_k_eq : forall n en ms a i stpf to b,
+  mfor_k (S n) en ms a i stpf to b =
+    match m_eval en ms to with
+    | MOk mt =>
+        match as_float mt with
+        | LOk (MF64 lim) =>
+            if (if fcmp FOlt stpf f_pos_zero then fcmp FOge i lim else fcmp FOle i lim) then
+              match mblock n en ms b with
+              | MROk MFBreak ms' => MROk MFNext ms'
+              | MROk _ ms' => let i' := f_add i stpf in mfor_k n en (m_store ms' a (MF64 i')) a i' stpf to b
+              | MRErr ms' => MRErr ms' | MRStuck => MRStuck | MRFuel => MRFuel
+              end
+            else MROk MFNext ms
+        | _ => MRStuck
+        end
+    | MErr => MRErr ms
+    | MStuck => MRStuck
+    end.
+Proof. reflexivity. Qed.
+Lemma meach_nil : forall n en ms a ai b, meach (S n) en ms a ai [] b = MROk MFNext ms.
+Proof. reflexivity. Qed.
+Lemma meach_cons : forall n en ms a ai m rest b,
+  meach (S n) en ms a ai (m :: rest) b =
+    match mblock n en (m_store ms a m) b with
+    | MROk MFBreak ms' => MROk MFNext ms'
+    | MROk _ ms' =>
+        match ai with
+        | None => meach n en ms' a ai rest b
+        | Some c => match nth_error (cells ms') c with
+                    | Some (MI64 u) => meach n en (m_store ms' c (MI64 (add64 u 1))) a ai rest b
+                    | _ => MRStuck
+                    end
+        end
+    | MRErr ms' => MRErr ms' | MRStuck => MRStuck | MRFuel => MRFuel
+    end.
 Proof. reflexivity. Qed.
 Lemma mexec_eq : forall n en ms st,
   mexec (S n) en ms st =
@@ -487,6 +841,55 @@ Lemma mexec_eq : forall n en ms st,
                    end
         | MErr => MRErr ms
         | MStuck => MRStuck
+        end
+    | LFor t x from to step body =>
+        match m_eval en ms from with
+        | MOk m =>
+            match m_coerce t m with
+            | MOk m0 =>
+                let a := length (cells ms) in
+                let ms1 := m_alloc ms m0 in
+                let en' := (x, BLoc a) :: en in
+                match (match step with Some se => m_eval en' ms1 se | None => MOk (m_default_step t) end) with
+                | MOk sv =>
+                    match t with
+                    | TKomma =>
+                        match m0, as_float sv with
+                        | MF64 i0, LOk (MF64 stpf) => mr_env en (mfor_k n en' ms1 a i0 stpf to body)
+                        | _, _ => MRStuck
+                        end
+                    | TZahl | TByte =>
+                        match as_int m0, as_int sv with
+                        | LOk (MI64 u0), LOk (MI64 su) => mr_env en (mfor_i n en' ms1 t a u0 su to body)
+                        | _, _ => MRStuck
+                        end
+                    | _ => MRStuck
+                    end
+                | MErr => MRErr ms1
+                | MStuck => MRStuck
+                end
+            | MErr => MRErr ms
+            | MStuck => MRStuck
+            end
+        | MErr => MRErr ms
+        | MStuck => MRStuck
+        end
+    | LForEach x idx src body =>
+        match (match src with
+               | LSText cs => MLOk (map (fun c => MI32 (c mod 2^32)) cs)
+               | LSList es => m_evals en ms es
+               end) with
+        | MLOk [] => MROk (MFNext, en) ms
+        | MLOk (m0 :: rest) =>
+            let a := length (cells ms) in
+            let ms1 := m_alloc ms m0 in
+            let en1 := (x, BLoc a) :: en in
+            match idx with
+            | None => mr_env en (meach n en1 ms1 a None (m0 :: rest) body)
+            | Some ix => mr_env en (meach n ((ix, BLoc (S a)) :: en1) (m_alloc ms1 (MI64 1)) a (Some (S a)) (m0 :: rest) body)
+            end
+        | MLErr => MRErr ms
+        | MLStuck => MRStuck
         end
     end.
 Proof. reflexivity. Qed.
@@ -689,6 +1092,94 @@ Lemma stmt_ok_blockstmt : forall G lp b,
   stmt_ok G lp (SBlock b) = if block_ok G lp b then Some G else None.
 Proof. intros. cbn [stmt_ok]. rewrite !stmt_ok_block. reflexivity. Qed.
 
+(* ---- helpers for the counting loops and for-each ---------------------------------------------------------- *)
+Lemma eval_zero : forall genv en s e, eval 0 genv en s e = Fail EFuel s.
+Proof. reflexivity. Qed.
+Lemma evals_zero : forall genv en s es, evals pow log10 fmt_float ftab 0 genv en s es = Fail EFuel s.
+Proof. reflexivity. Qed.
+
+Lemma one_mod : 1 mod 2^64 = 1.
+Proof. reflexivity. Qed.
+
+Lemma icmp_slt0 : forall z, min64 <= z <= max64 -> icmp64 ISlt (z mod 2^64) 0 = (z <? 0).
+Proof. intros z H. cbn [icmp64]. rewrite signed64_mod by assumption. reflexivity. Qed.
+
+Lemma to_Z_sim : forall v s, wf v -> is_num (type_of v) = true ->
+  exists k, to_Z_res v s = Ok k s /\ min64 <= k <= max64 /\ as_int (repr v) = LOk (MI64 (k mod 2^64)).
+Proof.
+  intros v s W N. destruct v; cbn in W, N; try discriminate N; unfold to_Z_res.
+  - exists z. cbn. repeat split; auto; apply W.
+  - exists (f_to_Z_sat min64 max64 bits). cbn. repeat split; try reflexivity.
+    + pose proof (sat_range min64 max64 bits). unfold min64, max64 in *. lia.
+    + pose proof (sat_range min64 max64 bits). unfold min64, max64 in *. lia.
+  - exists z. cbn. unfold zext8_64. rewrite small_byte_mod by assumption. repeat split; auto; unfold min64, max64; lia.
+Qed.
+
+Lemma as_float_sim : forall v, wf v -> is_num (type_of v) = true ->
+  exists x, to_f v = Some x /\ as_float (repr v) = LOk (MF64 x).
+Proof.
+  intros v W N. destruct v; cbn in W, N; try discriminate N; cbn [to_f repr as_float]; eexists; split; try reflexivity.
+  now rewrite tof_Z.
+Qed.
+
+Lemma cell_ext : forall s s' a t,
+  (exists old, nth_error (store s) a = Some old /\ type_of old = t) -> tyext s s' ->
+  exists old, nth_error (store s') a = Some old /\ type_of old = t.
+Proof. intros s s' a t [old [N T]] E. destruct (E _ _ N) as [v' [N' T']]. exists v'. split; auto. congruence. Qed.
+
+Lemma alloc_cell : forall s v, nth_error (store (snd (alloc s v))) (length (store s)) = Some v.
+Proof. intros. cbn. rewrite nth_error_app2 by lia. rewrite Nat.sub_diag. reflexivity. Qed.
+
+Lemma evals_sim : forall G en s ms genv t es n,
+  srel s ms -> gok G en s ->
+  forallb (fun e => match typeof G e with Some te => ty_eqb te t | None => false end) es = true ->
+  match evals pow log10 fmt_float ftab n genv en s es with
+  | Ok vs s' => s' = s /\ Forall (okv t) vs /\ length vs = length es /\ m_evals en ms (map compile_expr es) = MLOk (map repr vs)
+  | Fail ELaufzeit s' => s' = s /\ m_evals en ms (map compile_expr es) = MLErr
+  | Fail EFuel _ => True
+  | Fail (EUndef _) _ => False
+  end.
+Proof.
+  intros G en s ms genv t es. induction es as [|e es IH]; intros n SR GK TY.
+  - destruct n; [rewrite evals_zero; exact I|]. rewrite evals_nil. repeat split; auto.
+  - destruct n; [rewrite evals_zero; exact I|]. rewrite evals_cons. cbn [forallb] in TY.
+    apply andb_true_iff in TY. destruct TY as [T1 T2].
+    destruct (typeof G e) as [te|] eqn:TE; [|discriminate T1]. apply ty_eqb_eq in T1. subst te.
+    pose proof (eval_sim G en s ms genv e t n SR GK TE) as HE. unfold rbind. cbn [map m_evals].
+    destruct (eval n genv en s e) as [v s'|er s'].
+    + destruct HE as [-> [OV HM]]. rewrite HM. specialize (IH n SR GK T2).
+      destruct (evals pow log10 fmt_float ftab n genv en s es) as [vs s'|er s'].
+      * destruct IH as [-> [FA [LN HM2]]]. rewrite HM2. repeat split; auto. cbn. now rewrite LN.
+      * destruct er; auto. destruct IH as [-> HM2]. rewrite HM2. split; reflexivity.
+    + destruct er as [| g |]; cbn in HE |- *; auto. destruct HE as [-> ->]. split; reflexivity.
+Qed.
+
+Lemma stmt_ok_for : forall G lp t x from to step b,
+  stmt_ok G lp (SFor t x from to step b) =
+  match typeof G from, typeof (upd G x t) to with
+  | Some tf, Some tq =>
+      if is_num t && assignable t tf && is_num tq &&
+         (match step with None => true | Some se => match typeof (upd G x t) se with Some ts => is_num ts | None => false end end) &&
+         block_ok (upd G x t) true b
+      then Some G else None
+  | _, _ => None
+  end.
+Proof. intros. cbn [stmt_ok]. rewrite !stmt_ok_block. reflexivity. Qed.
+
+Lemma stmt_ok_foreach : forall G lp t x idx src b,
+  stmt_ok G lp (SForEach t x idx src b) =
+  if is_scalar_ty t &&
+     (match src with
+      | EListLit (e0 :: es) => forallb (fun e => match typeof G e with Some te => ty_eqb te t | None => false end) (e0 :: es)
+      | EText cs => ty_eqb t TChar && forallb (fun c => (- 2^31 <=? c) && (c <? 2^31)) cs
+      | _ => false
+      end) &&
+     block_ok (match idx with Some ix => upd (upd G x t) ix TZahl | None => upd G x t end) true b
+  then Some G else None.
+Proof. intros. cbn [stmt_ok]. rewrite !stmt_ok_block. reflexivity. Qed.
+
+Definition has_cell (s : state) (a : nat) (t : ty) : Prop := exists old, nth_error (store s) a = Some old /\ type_of old = t.
+
 Definition P_exec (n : nat) : Prop :=
   forall G G' lp genv en s ms st,
     srel s ms -> gok G en s -> stmt_ok G lp st = Some G' ->
@@ -705,6 +1196,25 @@ Definition P_repeat (n : nat) : Prop :=
   forall G genv en s ms k b,
     srel s ms -> gok G en s -> block_ok G true b = true -> 0 <= k <= max64 ->
     rel_block s (loop_repeat n genv en s k b) (mrepeat n en ms (k mod 2^64) (map compile_stmt b)).
+
+Definition P_for_i (n : nat) : Prop :=
+  forall G genv en s ms t a i stp to b tq,
+    srel s ms -> gok G en s -> (t = TZahl \/ t = TByte) -> has_cell s a t ->
+    min64 <= i <= max64 -> min64 <= stp <= max64 ->
+    typeof G to = Some tq -> is_num tq = true -> block_ok G true b = true ->
+    rel_block s (loop_for_i n genv en s t a i stp to b)
+              (mfor_i n en ms t a (i mod 2^64) (stp mod 2^64) (compile_expr to) (map compile_stmt b)).
+Definition P_for_k (n : nat) : Prop :=
+  forall G genv en s ms a i stp to b tq,
+    srel s ms -> gok G en s -> has_cell s a TKomma ->
+    typeof G to = Some tq -> is_num tq = true -> block_ok G true b = true ->
+    rel_block s (loop_for_k n genv en s a i stp to b)
+              (mfor_k n en ms a i stp (compile_expr to) (map compile_stmt b)).
+Definition P_each (n : nat) : Prop :=
+  forall G genv en s ms a ai elems b t,
+    srel s ms -> gok G en s -> block_ok G true b = true -> Forall (okv t) elems ->
+    has_cell s a t -> (forall c, ai = Some c -> has_cell s c TZahl) ->
+    rel_block s (loop_each n genv en s a ai elems b) (meach n en ms a ai (map repr elems) (map compile_stmt b)).
 
 Ltac fin :=
   repeat match goal with
@@ -727,10 +1237,238 @@ Ltac fail_cases er IH :=
   destruct er as [| g |]; cbn in IH |- *; auto; try contradiction;
   try (destruct IH as [-> ->]; eexists; split; [reflexivity|]; match goal with H : srel _ _ |- _ => apply H end).
 
-Lemma sim_step : forall n, P_exec n /\ P_block n /\ P_while n /\ P_repeat n ->
-  P_exec (S n) /\ P_block (S n) /\ P_while (S n) /\ P_repeat (S n).
+Lemma rel_block_ext : forall s0 s1 r m, tyext s0 s1 -> rel_block s1 r m -> rel_block s0 r m.
 Proof.
-  intros n [IHe [IHb [IHw IHr]]].
+  intros s0 s1 r m T H. destruct r as [fl s'|er s']; cbn [rel_block] in *.
+  - destruct H as [mfl [ms' [E [F [S' T']]]]]. exists mfl, ms'.
+    split; [exact E|split; [exact F|split; [exact S'|eapply tyext_trans; eauto]]].
+  - destruct er; auto.
+Qed.
+
+Lemma text_elems_ok : forall cs, forallb (fun c => (- 2^31 <=? c) && (c <? 2^31)) cs = true -> Forall (okv TChar) (map VC cs).
+Proof.
+  induction cs as [|c cs IH]; intros H; cbn [map]; constructor.
+  - cbn [forallb] in H. apply andb_true_iff in H. destruct H as [H _]. apply andb_true_iff in H. destruct H as [A B].
+    apply Z.leb_le in A. apply Z.ltb_lt in B. split; [cbn; lia|reflexivity].
+  - apply IH. cbn [forallb] in H. apply andb_true_iff in H. apply H.
+Qed.
+
+Lemma same_ty_forallb : forall t vs v, Forall (okv t) vs -> type_of v = t ->
+  forallb (fun w => ty_eqb (type_of v) (type_of w)) vs = true.
+Proof.
+  intros t vs v FA TV. induction FA as [|w vs [_ TW] _ IH]; cbn [forallb]; auto.
+  rewrite IH, TV, TW. assert (E : ty_eqb t t = true) by (apply ty_eqb_eq; reflexivity). now rewrite E.
+Qed.
+
+Lemma each_step : forall n, P_block n -> P_each n -> P_each (S n).
+Proof.
+  intros n IHb IHx G genv en s ms a ai elems b t SR GK OK FA HA HI.
+  destruct elems as [|v rest]; cbn [map].
+  - rewrite loop_each_nil, meach_nil. exists MFNext, ms. fin.
+  - rewrite loop_each_cons, meach_cons. pose proof (Forall_inv FA) as [Wv Tv]. pose proof (Forall_inv_tail FA) as FR.
+    destruct HA as [old [No To]].
+    destruct (write_sim s ms a old v SR No Wv ltac:(congruence)) as [s1 [HW [SR1 TE1]]].
+    rewrite HW.
+    assert (TAIL : forall s2 ms2, srel s2 ms2 -> tyext s1 s2 ->
+      rel_block s
+        (rbind (match ai with
+                | None => Ok tt s2
+                | Some c => rbind (read_bind s2 (BLoc c)) (fun iv s =>
+                              match iv with VZ k => write_bind s (BLoc c) (VZ (wrap64 (k + 1))) | _ => bad s end)
+                end) (fun _ s => loop_each n genv en s a ai rest b))
+        (match ai with
+         | None => meach n en ms2 a ai (map repr rest) (map compile_stmt b)
+         | Some c => match nth_error (cells ms2) c with
+                     | Some (MI64 u) => meach n en (m_store ms2 c (MI64 (add64 u 1))) a ai (map repr rest) (map compile_stmt b)
+                     | _ => MRStuck
+                     end
+         end)).
+    { intros s2 ms2 SR2 TE2. assert (TE : tyext s s2) by (eapply tyext_trans; eassumption).
+      destruct ai as [c|].
+      - destruct (cell_ext s s2 c TZahl (HI c eq_refl) TE) as [iv [Ni Ti]].
+        cbn [read_bind]. rewrite Ni.
+        destruct SR2 as [HO2 HS2]. destruct (Forall2_nth _ _ _ _ _ _ _ HS2 Ni) as [mi [Nmi [Wi Ei]]]. rewrite Nmi. subst mi.
+        destruct iv; try discriminate Ti. cbn [repr]. unfold rbind at 2.
+        destruct (write_sim s2 ms2 c (VZ z) (VZ (wrap64 (z + 1))) (conj HO2 HS2) Ni (wrap64_in64 _) eq_refl) as [s3 [HW3 [SR3 TE3]]].
+        rewrite HW3. unfold rbind.
+        assert (EQ : MI64 (add64 (z mod 2^64) 1) = repr (VZ (wrap64 (z + 1)))).
+        { cbn [repr]. rewrite wrap64_mod. unfold add64, m64. f_equal. now rewrite Zplus_mod_idemp_l. }
+        unfold m_store. rewrite EQ.
+        assert (TE' : tyext s s3) by (eapply tyext_trans; eassumption).
+        eapply rel_block_ext; [exact TE'|].
+        apply (IHx G genv en s3 _ a (Some c) rest b t); auto.
+        + eapply gok_ext; eauto.
+        + apply (cell_ext s s3 a t); [exists old; auto|exact TE'].
+        + intros c0 E. inversion E; subst c0. apply (cell_ext s s3 c TZahl); [apply HI; reflexivity|exact TE'].
+      - unfold rbind. eapply rel_block_ext; [exact TE|].
+        apply (IHx G genv en s2 ms2 a None rest b t); auto.
+        + eapply gok_ext; eauto.
+        + apply (cell_ext s s2 a t); [exists old; auto|exact TE].
+        + intros c E. discriminate E. }
+    unfold rbind at 1 2.
+    pose proof (IHb G true genv en s1 (m_store ms a (repr v)) b SR1 (gok_ext _ _ _ _ GK TE1) OK) as HB.
+    destruct (exec_block n genv en s1 b) as [fl s2|er s2].
+    + cbn [rel_block] in HB; destruct HB as [mfl [ms2 [-> [FR' [SR2 TE2]]]]].
+      destruct fl, mfl; try contradiction; [apply TAIL; assumption | exists MFNext, ms2; fin | apply TAIL; assumption].
+    + destruct er; errb.
+Qed.
+
+Lemma fori_step : forall n, P_block n -> P_for_i n -> P_for_i (S n).
+Proof.
+  intros n IHb IHf G genv en s ms t a i stp to b tq SR GK TT HA HI HS TQ NQ OK.
+  rewrite loop_for_i_eq, mfor_i_eq. unfold rbind at 1.
+  pose proof (eval_sim G en s ms genv to tq n SR GK TQ) as HE.
+  destruct (eval n genv en s to) as [tv s'|er s'].
+  - destruct HE as [-> [[Wv Tv] HM]]. rewrite HM.
+    destruct (to_Z_sim tv s Wv ltac:(rewrite Tv; exact NQ)) as [lim [HL [RL AL]]]. rewrite HL, AL. unfold rbind at 1.
+    rewrite (icmp_slt0 stp HS), (icmp_sge i lim HI RL), (icmp_sle i lim HI RL).
+    destruct (if stp <? 0 then i >=? lim else i <=? lim).
+    + pose proof (IHb G true genv en s ms b SR GK OK) as HB. unfold rbind at 1.
+      destruct (exec_block n genv en s b) as [fl s1|er s1].
+      * cbn [rel_block] in HB; destruct HB as [mfl [ms1 [-> [FR [SR1 TE1]]]]].
+        assert (TAIL : rel_block s
+           (rbind (write_bind s1 (BLoc a) (match t with TByte => VB (wrap8 (wrap64 (i + stp))) | _ => VZ (wrap64 (i + stp)) end))
+                  (fun _ s => loop_for_i n genv en s t a (wrap64 (i + stp)) stp to b))
+           (mfor_i n en (m_store ms1 a (match t with
+                                        | TByte => MI8 (trunc64_8 (add64 (i mod 2^64) (stp mod 2^64)))
+                                        | _ => MI64 (add64 (i mod 2^64) (stp mod 2^64)) end))
+                   t a (add64 (i mod 2^64) (stp mod 2^64)) (stp mod 2^64) (compile_expr to) (map compile_stmt b))).
+        { set (i' := wrap64 (i + stp)).
+          assert (ADD : add64 (i mod 2^64) (stp mod 2^64) = i' mod 2^64).
+          { unfold i', add64, m64. rewrite wrap64_mod. symmetry. apply Zplus_mod. }
+          rewrite ADD.
+          destruct (cell_ext s s1 a t HA TE1) as [old [No To]].
+          set (w := match t with TByte => VB (wrap8 i') | _ => VZ i' end).
+          assert (Ww : wf w /\ type_of w = t /\
+                       repr w = match t with TByte => MI8 (trunc64_8 (i' mod 2^64)) | _ => MI64 (i' mod 2^64) end).
+          { destruct TT; subst t; unfold w; cbn [wf type_of repr].
+            - split; [apply wrap64_in64|split; reflexivity].
+            - split; [unfold wrap8; apply Z.mod_pos_bound; lia|split; [reflexivity|]].
+              unfold trunc64_8, wrap8. now rewrite mod_mod_256. }
+          destruct Ww as [Ww [Tw Rw]]. rewrite <- Rw.
+          destruct (write_sim s1 ms1 a old w SR1 No Ww ltac:(congruence)) as [s2 [HW [SR2 TE2]]].
+          rewrite HW. unfold rbind.
+          assert (TE' : tyext s s2) by (eapply tyext_trans; eassumption).
+          eapply rel_block_ext; [exact TE'|].
+          apply (IHf G genv en s2 _ t a i' stp to b tq); auto.
+          - eapply gok_ext; eauto.
+          - apply (cell_ext s s2 a t); [exact HA|exact TE'].
+          - apply wrap64_in64. }
+        destruct fl, mfl; try contradiction; [apply TAIL | exists MFNext, ms1; fin | apply TAIL].
+      * destruct er; errb.
+    + exists MFNext, ms. fin.
+  - destruct er as [| g |]; cbn in HE |- *; auto; try contradiction.
+    destruct HE as [-> ->]. exists ms. split; [reflexivity|apply SR].
+Qed.
+
+Lemma fork_step : forall n, P_block n -> P_for_k n -> P_for_k (S n).
+Proof.
+  intros n IHb IHf G genv en s ms a i stp to b tq SR GK HA TQ NQ OK.
+  rewrite loop_for_k_eq, mfor_k_eq. unfold rbind at 1.
+  pose proof (eval_sim G en s ms genv to tq n SR GK TQ) as HE.
+  destruct (eval n genv en s to) as [tv s'|er s'].
+  - destruct HE as [-> [[Wv Tv] HM]]. rewrite HM.
+    destruct (as_float_sim tv Wv ltac:(rewrite Tv; exact NQ)) as [lim [HL AL]]. rewrite HL, AL.
+    cbn [fcmp].
+    destruct (if f_lt stp f_pos_zero then f_ge i lim else f_le i lim).
+    + pose proof (IHb G true genv en s ms b SR GK OK) as HB. unfold rbind at 1.
+      destruct (exec_block n genv en s b) as [fl s1|er s1].
+      * cbn [rel_block] in HB; destruct HB as [mfl [ms1 [-> [FR [SR1 TE1]]]]].
+        assert (TAIL : rel_block s
+           (rbind (write_bind s1 (BLoc a) (VK (f_add i stp))) (fun _ s => loop_for_k n genv en s a (f_add i stp) stp to b))
+           (mfor_k n en (m_store ms1 a (MF64 (f_add i stp))) a (f_add i stp) stp (compile_expr to) (map compile_stmt b))).
+        { destruct (cell_ext s s1 a TKomma HA TE1) as [old [No To]].
+          destruct (write_sim s1 ms1 a old (VK (f_add i stp)) SR1 No (wf_fadd i stp) ltac:(cbn; congruence)) as [s2 [HW [SR2 TE2]]].
+          rewrite HW. unfold rbind.
+          assert (TE' : tyext s s2) by (eapply tyext_trans; eassumption).
+          eapply rel_block_ext; [exact TE'|].
+          apply (IHf G genv en s2 _ a (f_add i stp) stp to b tq); auto.
+          - eapply gok_ext; eauto.
+          - apply (cell_ext s s2 a TKomma); [exact HA|exact TE']. }
+        destruct fl, mfl; try contradiction; [apply TAIL | exists MFNext, ms1; fin | apply TAIL].
+      * destruct er; errb.
+    + exists MFNext, ms. fin.
+  - destruct er as [| g |]; cbn in HE |- *; auto; try contradiction.
+    destruct HE as [-> ->]. exists ms. split; [reflexivity|apply SR].
+Qed.
+
+Lemma foreach_tail : forall n, P_each n -> forall G genv en s ms t x idx vs b,
+  srel s ms -> gok G en s -> Forall (okv t) vs ->
+  block_ok (match idx with Some ix => upd (upd G x t) ix TZahl | None => upd G x t end) true b = true ->
+  rel_exec G s
+    (match vs with
+     | [] => Ok (FNext, en) s
+     | v0 :: _ =>
+         let (a, s) := alloc s v0 in
+         let en1 := (x, BLoc a) :: en in
+         match idx with
+         | None => rbind (loop_each n genv en1 s a None vs b) (fun fl s => Ok (fl, en) s)
+         | Some ix =>
+             let (ai, s) := alloc s (VZ 1) in
+             rbind (loop_each n genv ((ix, BLoc ai) :: en1) s a (Some ai) vs b) (fun fl s => Ok (fl, en) s)
+         end
+     end)
+    (match map repr vs with
+     | [] => MROk (MFNext, en) ms
+     | m0 :: rest =>
+         let a := length (cells ms) in
+         let ms1 := m_alloc ms m0 in
+         let en1 := (x, BLoc a) :: en in
+         match idx with
+         | None => mr_env en (meach n en1 ms1 a None (m0 :: rest) (map compile_stmt b))
+         | Some ix => mr_env en (meach n ((ix, BLoc (S a)) :: en1) (m_alloc ms1 (MI64 1)) a (Some (S a)) (m0 :: rest) (map compile_stmt b))
+         end
+     end).
+Proof.
+  intros n IHx G genv en s ms t x idx vs b SR GK FA OKb.
+  destruct vs as [|v0 rest]; cbn [map].
+  - exists MFNext, ms. fin.
+  - pose proof (Forall_inv FA) as OV0.
+    destruct (alloc_sim G en s ms v0 t x SR GK OV0) as [A1 [A2 [A3 A4]]]. pose proof (alloc_cell s v0) as AC.
+    assert (LS : length (store (snd (alloc s v0))) = S (length (store s))) by (cbn; rewrite app_length; cbn; lia).
+    destruct (alloc s v0) as [a s1] eqn:AL. cbn [fst snd] in *.
+    assert (EA : a = length (store s)) by (unfold alloc in AL; inversion AL; reflexivity). rewrite EA in *.
+    cbv zeta. rewrite <- A1.
+    destruct idx as [ix|].
+    + assert (W1 : okv TZahl (VZ 1)) by (split; [cbn; unfold min64, max64; lia|reflexivity]).
+      destruct (alloc_sim (upd G x t) ((x, BLoc (length (store s))) :: en) s1 (m_alloc ms (repr v0)) (VZ 1) TZahl ix A2 A3 W1)
+        as [B1 [B2 [B3 B4]]].
+      pose proof (alloc_cell s1 (VZ 1)) as BC.
+      destruct (alloc s1 (VZ 1)) as [ai s2] eqn:AL2. cbn [fst snd] in *.
+      assert (EB : ai = length (store s1)) by (unfold alloc in AL2; inversion AL2; reflexivity). rewrite EB in *.
+      rewrite LS in *.
+      assert (HAc : has_cell s2 (length (store s)) t).
+      { apply (cell_ext s1 s2 _ t); [exists v0; split; [exact AC|apply OV0]|exact B4]. }
+      assert (HIc : forall c, Some (S (length (store s))) = Some c -> has_cell s2 c TZahl).
+      { intros c E. inversion E; subst c. exists (VZ 1). split; [exact BC|reflexivity]. }
+      pose proof (IHx _ genv ((ix, BLoc (S (length (store s)))) :: (x, BLoc (length (store s))) :: en) s2
+                      (m_alloc (m_alloc ms (repr v0)) (MI64 1)) (length (store s)) (Some (S (length (store s))))
+                      (v0 :: rest) b t B2 B3 OKb FA HAc HIc) as HL.
+      cbn [map] in HL. unfold rbind.
+      destruct (loop_each n genv ((ix, BLoc (S (length (store s)))) :: (x, BLoc (length (store s))) :: en) s2
+                          (length (store s)) (Some (S (length (store s)))) (v0 :: rest) b) as [fl s3|er s3].
+      * cbn [rel_block] in HL. destruct HL as [mfl [ms3 [-> [FR [SR3 TE3]]]]]. cbn [mr_env].
+        assert (TE : tyext s s3) by (eapply tyext_trans; [exact A4|eapply tyext_trans; [exact B4|exact TE3]]).
+        exists mfl, ms3. fin.
+      * destruct er; cbn [rel_exec rel_block] in *; auto. destruct HL as [ms3 [-> HO]]. cbn [mr_env]. eauto.
+    + assert (HAc : has_cell s1 (length (store s)) t) by (exists v0; split; [exact AC|apply OV0]).
+      assert (HIc : forall c, @None nat = Some c -> has_cell s1 c TZahl) by (intros c E; discriminate E).
+      pose proof (IHx _ genv ((x, BLoc (length (store s))) :: en) s1 (m_alloc ms (repr v0)) (length (store s)) None
+                      (v0 :: rest) b t A2 A3 OKb FA HAc HIc) as HL.
+      cbn [map] in HL. unfold rbind.
+      destruct (loop_each n genv ((x, BLoc (length (store s))) :: en) s1 (length (store s)) None (v0 :: rest) b) as [fl s3|er s3].
+      * cbn [rel_block] in HL. destruct HL as [mfl [ms3 [-> [FR [SR3 TE3]]]]]. cbn [mr_env].
+        assert (TE : tyext s s3) by (eapply tyext_trans; [exact A4|exact TE3]).
+        exists mfl, ms3. fin.
+      * destruct er; cbn [rel_exec rel_block] in *; auto. destruct HL as [ms3 [-> HO]]. cbn [mr_env]. eauto.
+Qed.
+
+Definition P_all (n : nat) : Prop :=
+  P_exec n /\ P_block n /\ P_while n /\ P_repeat n /\ P_for_i n /\ P_for_k n /\ P_each n.
+
+Lemma sim_step : forall n, P_all n -> P_all (S n).
+Proof.
+  intros n [IHe [IHb [IHw [IHr [IHfi [IHfk IHx]]]]]].
   assert (PB : P_block (S n)).
   { intros G lp genv en s ms ss SR GK OK. destruct ss as [|st r]; cbn [map].
     - rewrite exec_block_nil, mblock_nil. exists MFNext, ms. fin.
@@ -794,7 +1532,8 @@ Proof.
           -- cbn [rel_block rel_exec] in H2; destruct H2 as [mfl2 [ms2 [-> [FR2 [SR2 TE2]]]]]. exists mfl2, ms2. fin.
           -- destruct er2; errb.
       + destruct er; errb. }
-  split; [|split; [exact PB|split; [exact PW|exact PR]]].
+  split; [|split; [exact PB|split; [exact PW|split; [exact PR|
+    split; [apply fori_step; assumption|split; [apply fork_step; assumption|apply each_step; assumption]]]]]].
   (* statements *)
   intros G G' lp genv en s ms st SR GK OK.
   destruct st; try (cbn [stmt_ok] in OK; discriminate OK).
@@ -893,6 +1632,111 @@ Proof.
       * destruct er; errb.
     + destruct er as [| g |]; cbn in HE |- *; auto; try contradiction.
       destruct HE as [-> ->]. exists ms. split; [reflexivity|apply SR].
+  - (* SFor *) rewrite stmt_ok_for in OK.
+    destruct (typeof G from) as [tf|] eqn:TF; [|discriminate OK].
+    destruct (typeof (upd G x t) to) as [tq|] eqn:TQ; [|discriminate OK].
+    match type of OK with (if ?c then _ else _) = _ => destruct c eqn:BB; [|discriminate OK] end.
+    inversion OK; subst G'.
+    apply andb_true_iff in BB. destruct BB as [BB OKb]. apply andb_true_iff in BB. destruct BB as [BB STP].
+    apply andb_true_iff in BB. destruct BB as [BB NQ]. apply andb_true_iff in BB. destruct BB as [NT AS].
+    cbn [compile_stmt]. rewrite exec_for, mexec_eq. unfold rbind at 1.
+    pose proof (eval_sim G en s ms genv from tf n SR GK TF) as HE.
+    destruct (eval n genv en s from) as [v s'|er s'].
+    2:{ destruct er as [| g |]; cbn in HE |- *; auto; try contradiction.
+        destruct HE as [-> ->]. exists ms. split; [reflexivity|apply SR]. }
+    destruct HE as [-> [OV HM]]. rewrite HM.
+    destruct (coerce_sim t tf v OV AS) as [w [HC [OW MC]]]. rewrite HC, MC. cbn [lift]. unfold rbind at 1.
+    destruct (alloc_sim G en s ms w t x SR GK OW) as [A1 [A2 [A3 A4]]]. pose proof (alloc_cell s w) as AC.
+    destruct (alloc s w) as [a s1] eqn:AL. cbn [fst snd] in *.
+    assert (EA : a = length (store s)) by (unfold alloc in AL; inversion AL; reflexivity). rewrite EA in *.
+    cbv zeta. rewrite <- A1.
+    set (en' := (x, BLoc (length (store s))) :: en) in *.
+    assert (STEPV :
+      match (match step with Some se => eval n genv en' s1 se | None => Ok (default_step t) s1 end) with
+      | Ok sv s' => s' = s1 /\ wf sv /\ is_num (type_of sv) = true /\
+          (match (match step with Some se => Some (compile_expr se) | None => None end) with
+           | Some se => m_eval en' (m_alloc ms (repr w)) se | None => MOk (m_default_step t) end) = MOk (repr sv)
+      | Fail ELaufzeit s' => s' = s1 /\
+          (match (match step with Some se => Some (compile_expr se) | None => None end) with
+           | Some se => m_eval en' (m_alloc ms (repr w)) se | None => MOk (m_default_step t) end) = MErr
+      | Fail EFuel _ => True
+      | Fail (EUndef _) _ => False
+      end).
+    { destruct step as [se|].
+      - destruct (typeof (upd G x t) se) as [ts|] eqn:TS; [|discriminate STP].
+        pose proof (eval_sim (upd G x t) en' s1 (m_alloc ms (repr w)) genv se ts n A2 A3 TS) as HS.
+        destruct (eval n genv en' s1 se) as [sv s'|er s'].
+        + destruct HS as [-> [[Wsv Tsv] HMs]]. split; [reflexivity|split; [exact Wsv|split; [now rewrite Tsv|exact HMs]]].
+        + destruct er as [| g |]; cbn in HS |- *; auto.
+      - destruct t; try discriminate NT; cbn [default_step m_default_step].
+        + split; [reflexivity|split; [cbn; unfold min64, max64; lia|split; reflexivity]].
+        + split; [reflexivity|split; [apply canon_enc|split; reflexivity]].
+        + split; [reflexivity|split; [cbn; unfold min64, max64; lia|split; reflexivity]]. }
+    unfold rbind at 1.
+    destruct (match step with Some se => eval n genv en' s1 se | None => Ok (default_step t) s1 end) as [sv s'|er s'].
+    2:{ destruct er as [| g |]; cbn [rel_exec]; auto; try contradiction.
+        destruct STEPV as [-> HMs]. rewrite HMs. exists (m_alloc ms (repr w)). split; [reflexivity|apply A2]. }
+    destruct STEPV as [-> [Wsv [Nsv HMs]]]. rewrite HMs.
+    destruct OW as [Ww Tw].
+    assert (HAc : has_cell s1 (length (store s)) t) by (exists w; split; [exact AC|exact Tw]).
+    destruct t; try discriminate NT.
+    + (* Zahl *) destruct w; try discriminate Tw. cbn [to_i repr as_int].
+      destruct (to_Z_sim sv s1 Wsv Nsv) as [stp [HZ [RS AS']]]. rewrite HZ, AS'. unfold rbind at 1.
+      pose proof (IHfi (upd G x TZahl) genv en' s1 (m_alloc ms (MI64 (z mod 2^64))) TZahl (length (store s)) z stp to body tq
+                       A2 A3 (or_introl eq_refl) HAc Ww RS TQ NQ OKb) as HL.
+      unfold rbind.
+      destruct (loop_for_i n genv en' s1 TZahl (length (store s)) z stp to body) as [fl s2|er s2].
+      * cbn [rel_block] in HL. destruct HL as [mfl [ms2 [-> [FR [SR2 TE2]]]]]. cbn [mr_env].
+        assert (TE : tyext s s2) by (eapply tyext_trans; [exact A4|exact TE2]).
+        exists mfl, ms2. fin.
+      * destruct er; cbn [rel_exec rel_block] in *; auto. destruct HL as [ms2 [-> HO]]. cbn [mr_env]. eauto.
+    + (* Kommazahl *) destruct w; try discriminate Tw. cbn [repr].
+      destruct (as_float_sim sv Wsv Nsv) as [stp [HF AF]]. rewrite HF, AF.
+      pose proof (IHfk (upd G x TKomma) genv en' s1 (m_alloc ms (MF64 bits)) (length (store s)) bits stp to body tq
+                       A2 A3 HAc TQ NQ OKb) as HL.
+      unfold rbind.
+      destruct (loop_for_k n genv en' s1 (length (store s)) bits stp to body) as [fl s2|er s2].
+      * cbn [rel_block] in HL. destruct HL as [mfl [ms2 [-> [FR [SR2 TE2]]]]]. cbn [mr_env].
+        assert (TE : tyext s s2) by (eapply tyext_trans; [exact A4|exact TE2]).
+        exists mfl, ms2. fin.
+      * destruct er; cbn [rel_exec rel_block] in *; auto. destruct HL as [ms2 [-> HO]]. cbn [mr_env]. eauto.
+    + (* Byte *) destruct w; try discriminate Tw. cbn [to_i repr as_int]. cbn in Ww.
+      destruct (to_Z_sim sv s1 Wsv Nsv) as [stp [HZ [RS AS']]]. rewrite HZ, AS'. unfold rbind at 1.
+      rewrite (zext_mod z Ww).
+      assert (RZ : min64 <= z <= max64) by (unfold min64, max64; lia).
+      pose proof (IHfi (upd G x TByte) genv en' s1 (m_alloc ms (MI8 z)) TByte (length (store s)) z stp to body tq
+                       A2 A3 (or_intror eq_refl) HAc RZ RS TQ NQ OKb) as HL.
+      unfold rbind.
+      destruct (loop_for_i n genv en' s1 TByte (length (store s)) z stp to body) as [fl s2|er s2].
+      * cbn [rel_block] in HL. destruct HL as [mfl [ms2 [-> [FR [SR2 TE2]]]]]. cbn [mr_env].
+        assert (TE : tyext s s2) by (eapply tyext_trans; [exact A4|exact TE2]).
+        exists mfl, ms2. fin.
+      * destruct er; cbn [rel_exec rel_block] in *; auto. destruct HL as [ms2 [-> HO]]. cbn [mr_env]. eauto.
+  - (* SForEach *) rewrite stmt_ok_foreach in OK.
+    match type of OK with (if ?c then _ else _) = _ => destruct c eqn:BB; [|discriminate OK] end.
+    inversion OK; subst G'.
+    apply andb_true_iff in BB. destruct BB as [BB OKb]. apply andb_true_iff in BB. destruct BB as [ST SRC].
+    destruct n as [|n'].
+    { rewrite exec_foreach. rewrite eval_zero. exact I. }
+    destruct e; try discriminate SRC.
+    + (* Text literal *)
+      apply andb_true_iff in SRC. destruct SRC as [TC RG].
+      cbn [compile_stmt]. rewrite exec_foreach, mexec_eq. rewrite eval_text. unfold rbind at 1. rewrite TC. unfold rbind at 1.
+      apply ty_eqb_eq in TC. subst t.
+      replace (map (fun c => MI32 (c mod 2^32)) cs) with (map repr (map VC cs)) by (rewrite map_map; reflexivity).
+      apply (foreach_tail (S n') IHx G genv en s ms TChar x idx (map VC cs) body SR GK (text_elems_ok cs RG) OKb).
+    + (* list literal *)
+      destruct es as [|e0 es]; [discriminate SRC|].
+      cbn [compile_stmt]. rewrite exec_foreach, mexec_eq. rewrite eval_listlit.
+      pose proof (evals_sim G en s ms genv t (e0 :: es) n' SR GK SRC) as HV. unfold rbind at 1 2.
+      destruct (evals pow log10 fmt_float ftab n' genv en s (e0 :: es)) as [vs s'|er s'].
+      * destruct HV as [-> [FA [LN HM]]]. rewrite HM. destruct vs as [|v vs']; [discriminate LN|].
+        pose proof (Forall_inv FA) as [Wv Tv].
+        rewrite (same_ty_forallb t (v :: vs') v FA Tv). unfold rbind at 1. rewrite Tv.
+        assert (E : ty_eqb t t = true) by (apply ty_eqb_eq; reflexivity). rewrite E. unfold rbind at 1.
+        apply (foreach_tail (S n') IHx G genv en s ms t x idx (v :: vs') body SR GK FA OKb).
+      * destruct er as [| g |]; cbn in HV |- *; auto; try contradiction.
+        destruct HV as [-> ->]. exists ms. split; [reflexivity|apply SR].
   - (* SBreak *) cbn [stmt_ok] in OK.
     destruct lp; [|discriminate OK]. inversion OK; subst. cbn [compile_stmt]. rewrite mexec_eq. change (exec (S n) genv en s SBreak) with (@Ok (flow * env) (FBreak, en) s). exists MFBreak, ms. fin.
   - (* SContinue *) cbn [stmt_ok] in OK.
@@ -930,7 +1774,7 @@ Proof.
       destruct HE as [-> ->]. exists ms. split; [reflexivity|apply SR].
 Qed.
 
-Lemma sim_all : forall n, P_exec n /\ P_block n /\ P_while n /\ P_repeat n.
+Lemma sim_all : forall n, P_all n.
 Proof.
   induction n as [|n IH]; [|apply sim_step; exact IH].
   repeat split; intros until 0; intros; exact I.
